@@ -89,7 +89,135 @@ pub fn count_prog_probes(sc: &Scenario, ctx: &mut Ctx) {
     }
 }
 
+/// Large dictionaries and multi-megabyte outputs: the stream is described by a
+/// few numbers and rebuilt (deterministically) when executed, so that replay
+/// files stay small.
+fn gen_large(t: &mut Tape, tier: Tier) -> Scenario {
+    let mut sc = Scenario::new("c01");
+    sc.set_i("large", 1);
+    let props = gen::draw_props(t, false);
+    sc.set_l("props", vec![props.lc as u64, props.lp as u64, props.pb as u64]);
+    let base: u64 = if tier == Tier::Thorough {
+        [1u64 << 16, 1 << 20, 3 << 19, 1 << 22, 1 << 24][t.below(5) as usize]
+    } else {
+        [1u64 << 16, 1 << 18, 1 << 20, 3 << 19][t.below(4) as usize]
+    };
+    let dict = (base as i64 + [0i64, 0, -1, 1, 4095][t.below(5) as usize]) as u64;
+    sc.set_i("dict", dict);
+    let laps = t.range(1, 3);
+    let total = (dict * laps) as i64 + [0i64, -1, 1, 2, 273, -273][t.below(6) as usize] + if t.below(2) == 0 { t.below(70_000) as i64 } else { 0 };
+    sc.set_i("total", total.max(1) as u64);
+    sc.set_i("prefix", t.range(1, 300));
+    sc.set_i("rng", t.u64());
+    sc.set_i("marker", t.below(2));
+    sc.set_i("rk", [RK_SLICE, RK_SIM, RK_BUFREADER][t.below(3) as usize]);
+    sc.set_i("bufcap", t.range(1, 70_000));
+    sc.set_l("src_script", gen::draw_script(t));
+    sc.set_l("sink_script", gen::draw_script(t));
+    let mut opts = OptSpec::default();
+    opts.mode = t.below(3);
+    opts.store(&mut sc);
+    sc.note = format!("large: lc={} lp={} pb={} dict={} output={} marker={}", props.lc, props.lp, props.pb, dict, total, sc.i("marker"));
+    sc
+}
+
+fn exec_large(sc: &Scenario, ctx: &mut Ctx) -> Vec<Violation> {
+    use crate::refmodel::codec::{Props, RefEnc};
+    use crate::refmodel::lz::Sym;
+    let pl = sc.l("props");
+    let props = Props { lc: pl[0] as u32, lp: pl[1] as u32, pb: pl[2] as u32 };
+    let dict = sc.i("dict");
+    let total = sc.i("total") as usize;
+    let mut r = crate::prng::Xoshiro::new(sc.i("rng"));
+    let mut enc = RefEnc::new(props, dict);
+    let prefix = (sc.i("prefix") as usize).min(total);
+    for _ in 0..prefix {
+        let _ = enc.encode(Sym::Lit(r.next() as u8));
+    }
+    let mut far = 0u64;
+    while enc.model.out.len() < total {
+        let left = total - enc.model.out.len();
+        let avail = (enc.model.out.len() as u64).min(dict);
+        let roll = r.next() % 512;
+        let len = if left >= 273 && roll % 4 != 0 { 273 } else { (2 + r.next() % 272).min(left as u64) };
+        let s = if left < 2 || roll == 0 {
+            Sym::Lit(r.next() as u8)
+        } else if roll < 6 {
+            // reaches back as far as the dictionary (or everything produced) allows
+            far += 1;
+            Sym::Match { dist: (avail - (r.next() % 3).min(avail - 1)) as u32, len: len as u32 }
+        } else if roll < 12 {
+            far += 1;
+            Sym::Match { dist: (1 + r.next() % avail) as u32, len: len as u32 }
+        } else if roll < 40 {
+            Sym::Rep { idx: (r.next() % 4) as u8, len: len as u32 }
+        } else {
+            Sym::Match { dist: (1 + r.next() % (prefix as u64).min(avail)) as u32, len: len as u32 }
+        };
+        if enc.encode(s).is_err() {
+            let _ = enc.encode(Sym::Lit(r.next() as u8));
+        }
+    }
+    let marker = sc.i("marker") == 1;
+    if marker {
+        enc.encode_end_marker();
+    }
+    let payload = enc.finish_segment();
+    let expect = std::mem::take(&mut enc.model.out);
+    let mut opts = OptSpec::load(sc);
+    let size = if marker { None } else { Some(expect.len() as u64) };
+    let mut input = match opts.mode {
+        0 => crate::refmodel::container::lzma_header(props, dict as u32, Some(size.unwrap_or(u64::MAX))),
+        1 => {
+            opts.provided = size;
+            crate::refmodel::container::lzma_header(props, dict as u32, Some(sc.i("rng")))
+        }
+        _ => {
+            opts.provided = size;
+            crate::refmodel::container::lzma_header(props, dict as u32, None)
+        }
+    };
+    input.extend_from_slice(&payload);
+    let n = expect.len();
+    let (mut sink, st) = SimSink::new(Some(Rc::new(expect)), sc.l("sink_script"), Faults::none(), Faults::none());
+    let (v, ro) = run_with_reader(
+        EP_LZMA,
+        &input,
+        sc.i("rk"),
+        sc.l("src_script"),
+        Faults::none(),
+        sc.i("bufcap") as usize,
+        &mut sink,
+        &opts,
+        &RawSpec::default(),
+        0,
+        0,
+    );
+    let s = st.borrow();
+    ctx.stats.hit("arm.large_dictionary_multi_megabyte_output");
+    ctx.stats.max("max_output_bytes_of_one_decode", n as u64);
+    ctx.stats.max("max_dictionary_with_a_wrapped_window", if n as u64 > dict { dict } else { 0 });
+    ctx.stats.add("probe.large_far_matches", far);
+    ctx.stats.eval(sc.hash() ^ ro.log, true, ro.calls + s.writes);
+    if let Verdict::Panic(p) = &v {
+        return vec![Violation::new("panic", &panic_locus(p), p.clone(), sc)];
+    }
+    if let Some(off) = s.first_bad {
+        return vec![Violation::new("wrong_output", "lzma_decompress (large)", format!("output byte {} of {} differs from the bytes the format defines", off, n), sc)];
+    }
+    if !v.is_ok() {
+        return vec![Violation::new("rejects_valid_stream", "lzma_decompress (large)", format!("well-formed stream refused: {}", v.short()), sc)];
+    }
+    if s.accepted.len() != n {
+        return vec![Violation::new("wrong_output", "lzma_decompress (large)", format!("delivered {} bytes, the format defines {}", s.accepted.len(), n), sc)];
+    }
+    Vec::new()
+}
+
 fn gen(t: &mut Tape, tier: Tier) -> Scenario {
+    if t.below(if tier == Tier::Thorough { 4000 } else { 1500 }) == 0 {
+        return gen_large(t, tier);
+    }
     let mut sc = Scenario::new("c01");
     let max_target = if tier == Tier::Thorough { 262_144 } else { 40_000 };
     let raw = t.below(4) == 0;
@@ -235,6 +363,9 @@ fn judge(sc: &Scenario, what: &str, v: &Verdict, got: &[u8], first_bad: Option<u
 }
 
 fn exec(sc: &Scenario, ctx: &mut Ctx) -> Vec<Violation> {
+    if sc.i("large") == 1 {
+        return exec_large(sc, ctx);
+    }
     let (v, got, bad, events, log) = decode_once(sc, sc.b("input"));
     count_prog_probes(sc, ctx);
     if sc.i("ep") == EP_RAW_LZMA {
@@ -270,14 +401,14 @@ fn exec(sc: &Scenario, ctx: &mut Ctx) -> Vec<Violation> {
 pub static C01: SimpleProp = SimpleProp {
     id: "C01",
     level: "exploration",
-    rule: "one evaluation = one decode of a reference-encoded symbol program (random lc/lp/pb over all 225 settings, dictionary header values incl. <4096, tiny raw dictionaries 1..4095, both terminations, all three header options, benign short reads/writes through 4 reader kinds) compared online with the LZ model; plus a second decode under another declared dictionary size; distinct = distinct (scenario, event log) hash; non-trivial = expected output non-empty",
+    rule: "one evaluation = one decode of a reference-encoded symbol program (random lc/lp/pb over all 225 settings, dictionary header values incl. <4096, tiny raw dictionaries 1..4095, both terminations, all three header options, benign short reads/writes through 4 reader kinds; now and then a multi-megabyte stream over a large dictionary) compared online with the LZ model; plus a second decode under another declared dictionary size; distinct = distinct (scenario, event log) hash; non-trivial = expected output non-empty",
     runs_quick: 60_000,
     runs_thorough: 24_000_000,
     both_profiles: false,
     assumptions: &[
         "the reference encoder/LZ model define 'the bytes the format defines'; they are cross-checked against liblzma (lc+lp<=4) and against the reference decoder (all 225 settings) before every run",
         "pure property: no fault or schedule decides it; this is the simulator's fault-free control arm, sampling only",
-        "outputs up to 256 KiB (thorough) / 40 KB (quick)",
+        "outputs up to 256 KiB (thorough) / 40 KB (quick) for the random programs; the 'large' arm (1 run in 1500 / 4000) decodes match-heavy streams over dictionaries of 64 KiB - 1.5 MiB (16 MiB thorough) for 1-3 laps, up to ~50 MB of output",
     ],
     gen,
     exec,
